@@ -508,7 +508,14 @@ fn body_record(cx: &mut Ctx, body: &Body, depth: usize) -> (Value, Value, Value)
         if let TerminatorKind::Drop { place, .. } = &b.terminator.kind {
             if let Ok(pty) = place.ty(body.locals()) {
                 let disp = format!("{pty}");
-                if disp.contains("zksync_") && !has_param(&pty, 0) {
+                // types of the crate being compiled are displayed without their crate name (`mux::reusable_stream::Frame`):
+                // print the internal type with a `crate::` prefix on local paths as well
+                let tcx = cx.tcx;
+                let local = catch_unwind(AssertUnwindSafe(|| {
+                    let ity = rustc_internal::internal(tcx, pty);
+                    rustc_middle::ty::print::with_crate_prefix!(rustc_middle::ty::print::with_no_trimmed_paths!(ity.to_string())).contains("crate::")
+                })).unwrap_or(false);
+                if (disp.contains("zksync_") || local) && !has_param(&pty, 0) {
                     if let Ok(inst) = catch_unwind(AssertUnwindSafe(|| Instance::resolve_drop_in_place(pty))) {
                         if inst.has_body() {
                             let j = cx.inst_json(&inst, depth);
